@@ -47,7 +47,14 @@ impl<'r> Data<'r> {
             if src.is_empty() {
                 None
             } else {
-                Some(parse_field(&mut src))
+                let result = parse_field(&mut src);
+
+                // Nothing can be parsed after a malformed field: end the iteration.
+                if result.is_err() {
+                    src = &[];
+                }
+
+                Some(result)
             }
         })
     }
